@@ -19,6 +19,8 @@ import Driver.GMDecode
 import Driver.Intrinsic
 import Driver.Handshake
 import Driver.HandshakeAuth
+import Driver.X509Ext
+import Driver.GCMBytes
 open Gmsm
 
 def dispatch (toks : List String) : String :=
@@ -52,6 +54,12 @@ def dispatch (toks : List String) : String :=
     match Driver.handshakeAuthDispatch toks with
     | some r => r
     | none =>
+    match Driver.x509extDispatch toks with
+    | some r => r
+    | none =>
+    match Driver.gcmBytesDispatch toks with
+    | some r => r
+    | none =>
     match toks with
     | "sm4hist" :: rest => Driver.sm4hist rest
     | "sm3hist" :: rest => Driver.sm3hist rest
@@ -59,8 +67,8 @@ def dispatch (toks : List String) : String :=
     | "sm4mseq" :: rest => Driver.sm4mseq rest
     | "padrd" :: rest => Driver.padrd rest
     | "padwr" :: rest => Driver.padwr rest
-    | "p7stream" :: rest => Driver.p7stream rest
-    | "p7rt8" :: _ => "ok"
+    | "p7stream" :: rest => Driver.p7streamModel rest
+    | "p7rt8" :: rest => Driver.p7rt8Model rest
     | "recwrite" :: rest => Driver.recwrite rest
     | "recread" :: rest => Driver.recread rest
     | "expad" :: rest => Driver.expad rest
